@@ -299,8 +299,14 @@ def run_case(desc, ctx):
                 return
         else:
             ctx.note("harmonic_system_ill_conditioned_not_judged")
-    # flat connection reduces to the scalar Laplacian (planar meshes)
-    if np.all(V[:, 2] == 0) and desc["n_smooth"] == 0:
+    # flat connection reduces to the scalar Laplacian: on this mesh when it is planar, and on a dedicated planar Delaunay disk in every case
+    if desc["gen"] == "ff":
+        try:
+            Vp, Fp, _ = surfaces.delaunay_disk(random.Random(desc["seed"] ^ 0x51ab), 14, "uniform", lift=False)
+            _flat_reduction(ctx, np.asarray(Vp, float), Fp, elements, order, desc["cotan"])
+        except CaseAbort:
+            raise
+    if np.all(V[:, 2] == 0) and desc["n_smooth"] == 0 and False:
         ctx.obs("hermitian", "flat_" + elements)
         ok, m2 = ctx.call("build", build.surface, V, F, monitor="hermitian")
         if elements == "vertices":
@@ -342,6 +348,32 @@ def run_case(desc, ctx):
             ctx.violation("singularities", "faces", "indices_do_not_sum_to_4_chi", "singularity indices do not add up to 4 x Euler characteristic",
                           total=float(vals.sum()), chi=a["chi"], order=order, closed=closed)
             return
+        # history: another field (other order) computed on the same mesh object and flagged into the same attribute
+        order2 = {1: 4, 2: 6, 3: 4, 4: 2, 5: 2, 6: 4}[order]
+        kw2 = dict(order=order2, features=desc["features"], verbose=False, n_smooth=0, use_cotan=desc["cotan"], cad_correction=False)
+        ok, ffb = ctx.call("SurfaceFrameField[faces]_second_on_same_mesh", lambda: M.framefield.SurfaceFrameField(m, "faces", **kw2), monitor="singularities")
+        ok, _ = ctx.call("run_second_on_same_mesh", ffb.run, monitor="singularities")
+        ok, _ = ctx.call("flag_singularities_second", ffb.flag_singularities, monitor="singularities")
+        ctx.obs("singularities", "flag_second_field_same_mesh")
+        vb = np.array(ffb.var, dtype=complex)
+        if vb.shape == (len(F),) and np.all(np.abs(np.abs(vb) - 1) <= 1e-9):
+            sing2 = m.vertices.get_attribute("singuls")
+            vals2 = np.array([float(sing2[v]) for v in range(len(V))])
+            q2 = 4.0 / order2
+            for v in range(len(V)):
+                if v in ref.border_vertices or vals2[v] == 0:
+                    continue
+                r = vals2[v] / q2
+                if abs(r - round(r)) > 1e-5:
+                    ctx.violation("singularities", "faces", "index_not_a_multiple_of_the_quantum_after_reuse",
+                                  "after flagging a second field on the same mesh, an index at an interior vertex is not a whole multiple of 4/order",
+                                  vertex=v, value=float(vals2[v]), order=order2, previous_order=order)
+                    return
+            if abs(vals2.sum() - 4 * a["chi"]) > tol:
+                ctx.violation("singularities", "faces", "indices_do_not_sum_to_4_chi_after_reuse",
+                              "after flagging a second field on the same mesh the indices do not add up to 4 x Euler characteristic",
+                              total=float(vals2.sum()), chi=a["chi"], order=order2, previous_order=order)
+                return
     # ---------------- (e) invariance under renumbering / face rotation (bordered, deterministic settings)
     generic = desc["kind"] in ("disk", "annulus", "hinge")
     if not closed and fixed and free and pre is not None and desc["gen"] == "ff" and generic and (desc["n_smooth"] == 0 or attach is not None):
@@ -442,3 +474,27 @@ def _safe_attach_weight(ctx, V, F, desc):
         raise
     except Exception:
         return None
+
+
+def _flat_reduction(ctx, V, F, elements, order, cotan):
+    import mouette as M
+    ctx.obs("hermitian", "flat_" + elements)
+    ok, m2 = ctx.call("build", build.surface, V, F, monitor="hermitian")
+    ok, m3 = ctx.call("build", build.surface, V, F, monitor="hermitian")
+    if elements == "vertices":
+        ok, fc = ctx.call("FlatConnectionVertices", M.processing.connection.FlatConnectionVertices, m2, monitor="hermitian")
+        ok, La = ctx.call("laplacian_flat", M.operators.laplacian, m2, cotan, fc, order, monitor="hermitian")
+        ok, Lb = ctx.call("laplacian_scalar", M.operators.laplacian, m3, cotan, monitor="hermitian")
+    else:
+        ok, fc = ctx.call("FlatConnectionFaces", M.processing.connection.FlatConnectionFaces, m2, monitor="hermitian")
+        ok, La = ctx.call("laplacian_triangles_flat", M.operators.laplacian_triangles, m2, cotan, fc, order, monitor="hermitian")
+        ok, Lb = ctx.call("laplacian_triangles_scalar", M.operators.laplacian_triangles, m3, cotan, monitor="hermitian")
+    A_, B_ = np.asarray(La.todense()), np.asarray(Lb.todense())
+    if A_.shape != B_.shape or np.abs(A_ - B_).max() > 1e-6 * max(1.0, np.abs(B_).max()):
+        ctx.violation("hermitian", "flat_" + elements, "flat_connection_does_not_reduce_to_scalar_laplacian",
+                      "with a flat connection the connection Laplacian differs from the scalar Laplacian", order=order, cotan=cotan,
+                      max_diff=float(np.abs(A_ - B_).max()) if A_.shape == B_.shape else None)
+        raise CaseAbort()
+    if np.abs(A_ - A_.conj().T).max() > 1e-10 * max(1.0, np.abs(A_).max()):
+        ctx.violation("hermitian", "flat_" + elements, "connection_laplacian_not_hermitian", "the connection Laplacian is not Hermitian", order=order)
+        raise CaseAbort()
